@@ -63,3 +63,82 @@ pub open spec fn swap_msgs_ok(ms: Seq<SubMsg>, receiver: Seq<char>, collector: S
 }
 
 } // verus!
+verus! {
+// ---------------------------------------------------------------- routed swaps (C01, C04, C12, C13, C17)
+pub open spec fn op_in(op: SwapOperation) -> Seq<char> { op->token_in_denom@ }
+pub open spec fn op_out(op: SwapOperation) -> Seq<char> { op->token_out_denom@ }
+pub open spec fn op_pool(op: SwapOperation) -> Seq<char> { op->pool_identifier@ }
+
+/// outputs of consecutive operations chain: op[i].out == op[i+1].in
+pub open spec fn ops_chain(ops: Seq<SwapOperation>) -> bool {
+    forall|i: int| 0 <= i < ops.len() - 1 ==> op_out(#[trigger] ops[i]) == op_in(ops[i + 1])
+}
+
+/// the fee messages one hop appends: [burn if burn > 0] ++ [send protocol fee to the collector if > 0]
+pub open spec fn hop_fee_msgs_ok(added: Seq<CosmosMsg>, collector: Seq<char>, denom: Seq<char>, burn: nat, protocol: nat) -> bool {
+    let n_burn: int = if burn > 0 { 1 } else { 0 };
+    let n_prot: int = if protocol > 0 { 1 } else { 0 };
+    added.len() == n_burn + n_prot
+    && (burn > 0 ==> burn_msg(denom, burn, added[0]))
+    && (protocol > 0 ==> send_msg(collector, denom, protocol, added[n_burn]))
+}
+
+/// one executed hop: state `sp`, coin `inp` offered to op -> state `sk`, coin `outk` produced, fee messages mp -> mk
+pub open spec fn hop_rel(sp: Storage, inp: Coin, op: SwapOperation, max: Option<Decimal>, sk: Storage, outk: Coin, mp: Seq<CosmosMsg>, mk: Seq<CosmosMsg>) -> bool {
+    let id = op_pool(op);
+    let c = compute_swap_fn(sp.pools@[id], inp, op_out(op));
+    sp.pools@.dom().contains(id) && sp.pools@[id].status.swaps_enabled
+    && c is Ok
+    && outk.denom@ == op_out(op) && outk.amount == c->Ok_0.return_amount
+    && inp.denom@ != op_out(op)
+    && sk.pools@.dom().contains(id)
+    && swap_applied(sp.pools@[id], sk.pools@[id], inp.denom@, inp.amount@, op_out(op),
+        c->Ok_0.return_amount@ + c->Ok_0.protocol_fee_amount@ + c->Ok_0.burn_fee_amount@)
+    && c->Ok_0.return_amount@ + c->Ok_0.protocol_fee_amount@ + c->Ok_0.burn_fee_amount@ <= reserve_of(sp.pools@[id], op_out(op))
+    && sk == (Storage { pools: Ghost(sp.pools@.insert(id, sk.pools@[id])), ..sp })
+    && (c->Ok_0.return_amount@ + c->Ok_0.slippage_amount@ > 0 && c->Ok_0.return_amount@ + c->Ok_0.slippage_amount@ <= U128_MAX
+        ==> slippage_ok_no_belief(max, c->Ok_0.return_amount@, c->Ok_0.slippage_amount@))
+    && (c->Ok_0.protocol_fee_amount@ > 0 ==> sp.config@ is Some)
+    && mp.len() <= mk.len() && mk.subrange(0, mp.len() as int) == mp
+    && hop_fee_msgs_ok(mk.subrange(mp.len() as int, mk.len() as int), sp.config@->Some_0.fee_collector_addr@, op_out(op),
+        c->Ok_0.burn_fee_amount@, c->Ok_0.protocol_fee_amount@)
+}
+
+/// hop i of a recorded route: states st, coins outs (outs[0] = the offer) and fee-message prefixes ms
+pub open spec fn hop_at(st: Seq<Storage>, outs: Seq<Coin>, ms: Seq<Seq<CosmosMsg>>, ops: Seq<SwapOperation>, max: Option<Decimal>, i: int) -> bool {
+    hop_rel(st[i], outs[i], ops[i], max, st[i + 1], outs[i + 1], ms[i], ms[i + 1])
+}
+/// k hops of `ops` executed from state s0 with coin `inp`, recorded as sequences of intermediate states/coins/fee messages
+pub open spec fn route_seq(s0: Storage, inp: Coin, ops: Seq<SwapOperation>, max: Option<Decimal>, k: nat,
+    st: Seq<Storage>, outs: Seq<Coin>, ms: Seq<Seq<CosmosMsg>>) -> bool {
+    k <= ops.len() && st.len() == k + 1 && outs.len() == k + 1 && ms.len() == k + 1
+    && st[0] == s0 && outs[0] == inp && ms[0] == Seq::<CosmosMsg>::empty()
+    && forall|i: int| 0 <= i < k ==> #[trigger] hop_at(st, outs, ms, ops, max, i)
+}
+
+/// final message list of a routed swap: [send the last output to the receiver if non-zero] ++ fee messages, nothing else
+pub open spec fn route_msgs_ok(ms: Seq<SubMsg>, receiver: Seq<char>, out: Coin, fee_msgs: Seq<CosmosMsg>) -> bool {
+    let n_ret: int = if out.amount@ > 0 { 1 } else { 0 };
+    ms.len() == n_ret + fee_msgs.len()
+    && (forall|i: int| 0 <= i < ms.len() ==> plain(#[trigger] ms[i]))
+    && (out.amount@ > 0 ==> send_msg(receiver, out.denom@, out.amount@, ms[0].msg))
+    && (forall|j: int| 0 <= j < fee_msgs.len() ==> (#[trigger] ms[n_ret + j]).msg == fee_msgs[j])
+}
+
+pub proof fn lemma_route_extend(s0: Storage, inp: Coin, ops: Seq<SwapOperation>, max: Option<Decimal>, k: nat,
+    st: Seq<Storage>, outs: Seq<Coin>, ms: Seq<Seq<CosmosMsg>>, sk: Storage, outk: Coin, mk: Seq<CosmosMsg>)
+    requires k < ops.len(), route_seq(s0, inp, ops, max, k, st, outs, ms),
+        hop_rel(st[k as int], outs[k as int], ops[k as int], max, sk, outk, ms[k as int], mk),
+    ensures route_seq(s0, inp, ops, max, k + 1, st.push(sk), outs.push(outk), ms.push(mk)),
+{
+    let st2 = st.push(sk);
+    let outs2 = outs.push(outk);
+    let ms2 = ms.push(mk);
+    assert forall|i: int| 0 <= i < k + 1 implies #[trigger] hop_at(st2, outs2, ms2, ops, max, i) by {
+        if i < k {
+            assert(hop_at(st, outs, ms, ops, max, i));
+        }
+    }
+}
+
+} // verus!
